@@ -668,6 +668,10 @@ func runL0(seed int64, n int, dir string) error {
 		stats["probe_stored_plaintext_put_fault"]++
 	}
 	id++
+	fmt.Fprintf(cw, "%d probe version-created-at-the-cutoff-survives-history-deletion\n", id)
+	fmt.Fprintf(iw, "%d %s\n", id, probeVersionCreatedAtCutoff())
+	stats["probe_version_at_cutoff"]++
+	id++
 	fmt.Fprintf(cw, "%d probe tombstone-before-1970-hides-the-key\n", id)
 	fmt.Fprintf(iw, "%d %s\n", id, probeTombstoneBefore1970())
 	stats["probe_tombstone_before_1970"]++
